@@ -41,3 +41,35 @@ Theorem C09_function_names_differ_only_by_documented_substitutions :
     [Some (K "IFNULL"); Some (K "MAX"); Some (K "MIN"); Some (K "LENGTH"); Some (K "RANDOM")].
 Proof. repeat split; vm_compute; reflexivity. Qed.
 Print Assumptions C09_function_names_differ_only_by_documented_substitutions.
+
+(* Expression level, unbounded: for EVERY portable expression tree (Proofs/PortableProofs.v: columns, values,
+   tuples, keywords, constants, raw text, NOT, CASE, EXISTS / plain sub-queries, portable and custom-named
+   functions, every operator of the common set incl. BETWEEN / LIKE .. ESCAPE / IN; not AsEnum, not value
+   templates), any two backends and both settings of option-more-parentheses, with the decision tables
+   executed from the code on this run: the two backends write the same script, token for token (same
+   identifiers, same values in the same order, same keywords, same parentheses), provided they write the
+   same script for the sub-queries.  The backends then differ only in how a token is spelled. *)
+Require Import SQV.Model.Value SQV.Model.Expr SQV.Model.Writer SQV.Model.RenderExpr SQV.Proofs.PortableProofs SQV.Proofs.PortableTablesProofs.
+Theorem C09_portable_expression_same_script :
+  forall (Q : Type) (rq1 rq2 : Q -> script), (forall q, rq1 q = rq2 q) ->
+  forall is_alpha more b1 b2 (e : Expr.expr Q) common, portable Q e = true ->
+  rexpr Q rq1 is_alpha b1 (tables_of more b1) common e = rexpr Q rq2 is_alpha b2 (tables_of more b2) common e.
+Proof.
+  intros Q rq1 rq2 Hrq is_alpha more b1 b2 e common Hp.
+  destruct (all_tables_agree more b1 b2) as [Ha Hf].
+  now apply portable_same_script.
+Qed.
+Print Assumptions C09_portable_expression_same_script.
+
+(* non-vacuity: (a + 1) * b BETWEEN 2 AND c OR NOT (COALESCE(d, 'x') LIKE 'y%' ESCAPE '!') is portable *)
+Example C09_portable_inhabited :
+  let col := fun n : N => @EColumn unit (CCol [n]) in
+  let i := fun z : Z => @EValue unit (V TInt (Some (PInt z))) in
+  let s := fun c : N => @EValue unit (V TString (Some (PStr [c]))) in
+  portable unit
+    (EBinary
+       (EBinary (EBinary (EBinary (col 97%N) BAdd (i 1%Z)) BMul (col 98%N)) BBetween (EBinary (i 2%Z) BAnd (col 99%N)))
+       BOr
+       (ENot (EBinary (EFunc FCoalesce [(false, col 100%N); (false, s 120%N)]) BLike
+                      (EBinary (s 121%N) BEscape (s 33%N))))) = true.
+Proof. reflexivity. Qed.
